@@ -91,6 +91,10 @@ func (x *Exec) checkSinks(e *ast.CallExpr, st *State, calleeShort string, args [
 		}
 		old := x.curPos
 		x.curPos = e.Pos()
+		if len(x.inlineStack) > 0 {
+			// inside an inlined helper: the clause speaks about the unit's own variables
+			x.curPos = x.inlineSite
+		}
 		cx := x.cctx(st, sk.C)
 		// arg0, arg1, ... denote the values passed at this call
 		cx.env = map[string]cbind{}
@@ -121,6 +125,9 @@ func (x *Exec) checkSinks(e *ast.CallExpr, st *State, calleeShort string, args [
 				continue
 			}
 			x.curPos = e.Pos()
+			if len(x.inlineStack) > 0 {
+				x.curPos = x.inlineSite
+			}
 			kc := x.cctx(st, kf.When)
 			kc.env = cx.env
 			w := x.cbool(kf.When.Expr, kc)
